@@ -92,7 +92,7 @@ def F(with_=(), without=(), excl=False, ftc=(), qtc=()):
 # Model families (DESIGN.md section 6).  `consts` instantiate ArkGen; `tiers` override per tier.
 
 ALL_INV = ["NoPanic", "Refines", "AOK", "BIndexOK", "BFreeList", "BSpare", "BTables", "BRelIndex", "BCache",
-           "BCacheIds", "UniqueHandles", "DeadNotTarget", "QueriesExact", "BLock", "BOpenRows", "BGraph"]
+           "BCacheIds", "UniqueHandles", "DeadNotTarget", "QueriesExact", "BLock", "BOpenRows", "BGraph", "BRes"]
 
 FAMILIES = {
     "core": dict(
@@ -173,6 +173,14 @@ FAMILIES["dump"] = dict(
     tiers=dict(quick=dict(MaxHist=7, EmitPct=15), thorough=dict(MaxHist=9, EmitPct=5)),
     exec=dict(comps=["A"]),
 )
+# resources (layer A: w.res; C18: a partial map from type to value, C16: Reset removes them), with entities, Reset, Load
+FAMILIES["res"] = dict(
+    consts=dict(CompSeq=["A"], RelSet=S(), CapN=1, CapR=1, ResetThr=1, MaxIds=2, MaxGen=1, MaxTabs=4, ValMode="const",
+                OpKinds=S("New", "Kill", "Reset", "Load", "Res"), ResSet=S("X", "Y"),
+                NewSets=S(S("A")), DeltaSets=S(S("A")), FilterCat=[], RegCat=S()),
+    tiers=dict(quick=dict(MaxHist=6, EmitPct=40), thorough=dict(MaxHist=8, EmitPct=10)),
+    exec=dict(comps=["A"]),
+)
 FAMILIES["lock"] = dict(
     consts=dict(CompSeq=["A", "R"], RelSet=S("R"), CapN=1, CapR=1, ResetThr=1, MaxIds=3, MaxGen=1, MaxTabs=6, MaxLocks=3, MaxOpen=3,
                 ValMode="const",
@@ -213,8 +221,8 @@ DRIVES = {
     "obs2": dict(comps=["A", "R", "S"], maxent=8, extra=dict(observers=6, obsp=150, grid=10), quick=dict(count=300, len=150), thorough=dict(count=2500, len=250)),
     "lock": dict(comps=["A", "B", "R"], maxent=10, extra=dict(queries=6, observers=2, grid=15), quick=dict(count=300, len=200), thorough=dict(count=2500, len=300)),
     "lock64": dict(comps=["A", "R"], maxent=6, extra=dict(queries=62), quick=dict(count=60, len=400), thorough=dict(count=400, len=600)),
-    "reset": dict(comps=["A", "B", "R"], maxent=10, extra=dict(observers=3, resetp=25, stats=True), quick=dict(count=300, len=200), thorough=dict(count=2000, len=300)),
-    "reset2": dict(comps=["A", "R", "S"], maxent=8, extra=dict(observers=3, resetp=40, queries=2), quick=dict(count=200, len=200), thorough=dict(count=1500, len=300)),
+    "reset": dict(comps=["A", "B", "R"], maxent=10, extra=dict(observers=3, resetp=25, stats=True, resp=60), quick=dict(count=300, len=200), thorough=dict(count=2000, len=300)),
+    "reset2": dict(comps=["A", "R", "S"], maxent=8, extra=dict(observers=3, resetp=40, queries=2, resp=60), quick=dict(count=200, len=200), thorough=dict(count=1500, len=300)),
     "arity": dict(comps=["A", "B", "C", "R", "S", "F1", "F2", "F3", "F4", "F5", "F6", "F7"], maxent=10,
                   extra=dict(arity=True, grid=50, typedobs=True, observers=3, queries=2),
                   quick=dict(count=120, len=250), thorough=dict(count=1200, len=400)),
@@ -271,7 +279,8 @@ PLANS["C06"] = [("batch", ["typed1", "typed11", "exch8", "typed53"]), ("drive:wi
 PLANS["C19"] = [("statsmodel", []), ("core", ["typed1", "unsafe1"]), ("cache", ["typed1", "unsafe2"]),
                 ("drive:wide", ["typed1", "unsafe2", "typed53"]), ("drive:lock", ["typed1", "unsafe1"]), ("drive:obs", ["typed11"])]
 PROP_CFG["C19"] = (dict(probes=1, stats=True), dict(probes=2, stats=True))
-PLANS["C16"] = [("cache", ["typed1", "unsafe2"]), ("drive:reset", ["typed1", "unsafe2", "typed11"]), ("drive:reset2", ["typed11", "unsafe1"])]
+PLANS["C18"] = [("res", ["typed1", "unsafe2", "mapt1"]), ("drive:reset", ["typed1", "unsafe2", "mapt1"])]
+PLANS["C16"] = [("cache", ["typed1", "unsafe2"]), ("res", ["typed1", "unsafe2", "mapt1"]), ("drive:reset", ["typed1", "unsafe2", "typed11"]), ("drive:reset2", ["typed11", "unsafe1"])]
 PLANS["C17"] = [("dump", ["typed1", "unsafe2", "typed53"]), ("drive:reset", ["typed1", "unsafe2", "typed11", "typed53"]), ("drive:reset2", ["typed11", "unsafe1"])]
 PLANS["C11"] = [("core", ["typed1", "unsafe1", "exch8", "mapt1"]), ("batch", ["typed1", "typed53"]),
                 ("drive:mem", ["typed1", "unsafe2", "exch8", "typed11", "mapt42"]), ("drive:big", ["typed1", "unsafe3", "typed53"]), ("drive:mem64", ["typed1", "unsafe3", "typed53"])]
@@ -340,7 +349,7 @@ def build_executor(ctx, tags="verif", name="arkexec"):
 def write_model(ctx, fam, over=None, inv=None):
     """Instantiate family `fam` as MC_<fam>.tla + cfg in the work directory."""
     f = FAMILIES[fam]
-    consts = dict(ValMode="ord", EmitPct=100, EmitSeed=ctx.seed, EmitMode="all", MaxLocks=3, MaxOpen=2, ObsCat=[])
+    consts = dict(ValMode="ord", EmitPct=100, EmitSeed=ctx.seed, EmitMode="all", MaxLocks=3, MaxOpen=2, ObsCat=[], ResSet=S())
     if f.get("obscat"):
         consts["ObsCat"] = f["obscat"](ctx.seed)
     consts.update(f["consts"])
@@ -892,8 +901,15 @@ def finish(ctx, level_text):
 
 
 def check_generic(ctx):
-    plan = PLANS[ctx.pid]
     build_executor(ctx)
+    gens = run_plan(ctx, PLANS[ctx.pid])
+    if ctx.pid == "C06":
+        unbatch_product(ctx, gens)
+    return finish(ctx, "bounded: see families/cells")
+
+
+def run_plan(ctx, plan):
+    """The stages of a plan: BFS families (design check, replay of the emitted transitions, monitor), drivers, models."""
     gens = {}
     quick = ctx.tier == "quick"
     for fam, cells in plan:
@@ -952,9 +968,7 @@ def check_generic(ctx):
         replay_family(ctx, gen, cs, keep, pc.get("probes", 0), extra_cfg={k: v for k, v in pc.items() if k != "probes"},
                       budget=None if quick else budget)
         gens[fam] = gen
-    if ctx.pid == "C06":
-        unbatch_product(ctx, gens)
-    return finish(ctx, "bounded: see families/cells")
+    return gens
 
 
 def unbatch_product(ctx, gens):
@@ -1676,6 +1690,8 @@ def check_c18(ctx):
             jobs.append(([b, "-registry", str(runs), "-len", "80", "-out", lp, "-cfg", json.dumps(cfg)], cfg, lp,
                          "%s/caps%s" % (tag or "default", caps)))
     exec_logs_and_monitor(ctx, jobs, "registry")
+    # resources inside world histories (layer A: w.res): Add / Remove / writes through Get / Reset / Load
+    run_plan(ctx, PLANS["C18"])
     return finish(ctx, "registry model with scaled constants; conformance with the real limits")
 
 
